@@ -189,3 +189,83 @@ def run_robust(core, cmd, cases, jobs=None):
                 if r1 != 0:
                     crashers.append((c, r1, e1))
     return omap, crashers
+
+
+# ---------------------------------------------------------------- whole-pattern function level (wfx)
+def parse_wfx(tok):
+    """'a|f0:7|b7:7;w|...' -> {(pass, 'f'|'b', pos): set(lens) or 'E'}"""
+    out = {}
+    if tok in ("-", ""):
+        return out
+    for part in tok.split(";"):
+        items = part.split("|")
+        ps = items[0][-1]
+        for it in items[1:]:
+            k, ls = it.split(":", 1)
+            out[(ps, k[0], int(k[1:]))] = "E" if ls.startswith("E") else set(int(x) for x in ls.split(","))
+    return out
+
+
+def check_wfx(core, chk, b, cases, excuse, maxbuf=700, limit=10):
+    """the whole AST emitted by yr_re_ast_emit_code into a private arena and run EXHAUSTIVELY by the C VM forwards from
+    every position and backwards from every position, against the specification's sets (function level: emit + VM = spec,
+    independent of atoms and of the scan loop).  `excuse(case, kind)` says whether a listed finding covers a deviation of
+    that kind ('subset' = C reports fewer lengths, 'crash')."""
+    lines = []
+    for c in cases:
+        toks = dict(t.split("=", 1) for t in c.split()[1:] if "=" in t)
+        if "mstr" in toks or toks.get("buf", "-") == "-" or len(toks.get("buf", "")) // 2 > maxbuf:
+            continue
+        lines.append("%s src=%s re=%s fl=%s buf=%s wfx=1" % (c.split(" ", 1)[0], toks["src"], toks["re"], toks.get("fl", "a"), toks["buf"]))
+    omap, crashers = run_robust(core, [b["h_re"]], lines)
+    model, _, _ = core.run_parallel([core.driver_path(), "re"], lines)
+    mm = {l.split(" ", 1)[0]: l for l in model}
+    res = {"cases": len(lines), "agree": 0, "subset_known": 0, "limit_errors": 0, "crash_known": 0, "violations": 0, "positions_compared": 0}
+    crashed = {c.split(" ", 1)[0]: (c, r, e) for c, r, e in crashers}
+    found = False
+    for l in lines:
+        cid = l.split(" ", 1)[0]
+        if cid in crashed:
+            c, r, e = crashed[cid]
+            if excuse(l, "crash", e):
+                res["crash_known"] += 1
+            else:
+                if res["violations"] < limit:
+                    chk.violation("wfx_crash_%s.json" % cid, {"kind": "crash in yr_re_exec / yr_re_fast_exec on the emitted code", "engine": "re", "harness": "h_re", "case": l, "rc": r, "stderr": e[-2000:]})
+                res["violations"] += 1; found = True
+            continue
+        o, m = omap.get(cid), mm.get(cid)
+        if not o or not m or o.split()[1] != "OK":
+            continue
+        tok = [t for t in o.split() if t.startswith("wfx=")]
+        if not tok or len(m.split()) < 3 or m.split()[1] != "W":
+            continue
+        cw = tok[0][4:]
+        cw = ";".join(p.split(":", 1)[1] if ":" in p.split("|")[0] else p for p in cw.split(";")) if cw != "-" else "-"
+        C, S = parse_wfx(cw), parse_wfx(m.split()[2])
+        bad, subset, lim = [], False, False
+        has_eol = "$" in l.split(" re=", 1)[1].split(" ", 1)[0]
+        for k in set(C) | set(S):
+            if has_eol and k[1] == "b":
+                continue      # RE_OPCODE_MATCH_AT_END never succeeds in backward code (it is only reachable to the RIGHT of an atom in real scans)
+            cv, sv = C.get(k, set()), S.get(k, set())
+            res["positions_compared"] += 1
+            if cv == "E":
+                lim = True
+            elif cv != sv:
+                if cv < sv:
+                    subset = True
+                bad.append((k, sorted(cv), sorted(sv)))
+        if lim:
+            res["limit_errors"] += 1
+        elif not bad:
+            res["agree"] += 1
+        elif all(set(cv) < set(sv) for _, cv, sv in bad) and excuse(l, "subset", ""):
+            res["subset_known"] += 1
+        else:
+            if res["violations"] < limit:
+                chk.violation("wfx_%s.json" % cid, {"kind": "emitted code run exhaustively by the C VM differs from the specification (function level)", "engine": "re",
+                                                   "harness": "h_re", "case": l, "implementation": o[:1500], "model_spec": m[:1500],
+                                                   "differences": [[list(map(str, k)), cv, sv] for k, cv, sv in bad[:8]]})
+            res["violations"] += 1; found = True
+    return res, found
